@@ -289,6 +289,19 @@ fn finish_check(prop: &str, tier: &str, batch_seed: u64, t0: Instant, main: Batc
     }
 }
 
+fn audit_pair_in_process(prop: &str, seed: u64, start: u64, stride: u64, index: u64) -> Option<(u64, u64)> {
+    let exe = std::env::current_exe().ok()?;
+    let out = std::process::Command::new(exe)
+        .args(["audit-pair", prop, &seed.to_string(), &start.to_string(), &stride.to_string(), &index.to_string()])
+        .stdin(std::process::Stdio::null())
+        .output()
+        .ok()?;
+    let text = String::from_utf8_lossy(&out.stdout).to_string();
+    let line = text.lines().find(|l| l.starts_with("PAIR "))?;
+    let f: Vec<&str> = line.split_whitespace().collect();
+    Some((u64::from_str_radix(f.get(1)?, 16).ok()?, u64::from_str_radix(f.get(2)?, 16).ok()?))
+}
+
 fn minimise_crash(doc: &J, id: &str, budget: usize) -> J {
     let start = match doc.get("scenario").map(Concrete::from_json) {
         Some(Ok(c)) => c,
@@ -511,10 +524,9 @@ fn replay_main(path: &str) -> i32 {
         if let Some(a) = extra.get("audit_history") {
             // the same run after two different worker histories (16 and 5 workers)
             let (seed, x) = (a.u64_of("verif_seed"), a.u64_of("index"));
-            let p1 = prop2.clone();
-            let p2 = prop2.clone();
-            let a16 = exec::in_fresh_thread(move || worker::audit_pair_after_history(&p1, seed, x % 16, 16, x));
-            let a5 = exec::in_fresh_thread(move || worker::audit_pair_after_history(&p2, seed, x % 5, 5, x));
+            // each history runs in its own process: state may be process-wide, not only per thread
+            let a16 = audit_pair_in_process(&prop2, seed, x % 16, 16, x);
+            let a5 = audit_pair_in_process(&prop2, seed, x % 5, 5, x);
             exec::clean_root(&scratch);
             let _ = std::fs::remove_dir(&scratch);
             return if a16 != a5 {
@@ -585,6 +597,34 @@ fn main() {
             let (c, extra, trace, fam) = worker_scenario(&args[2], env_u64("VERIF_SEED", 1), args[3].parse().unwrap());
             println!("{}", J::obj().set("family", J::s(&fam)).set("scenario", c.to_json()).set("extra", extra).set("faults", trace).to_pretty());
             0
+        }
+        "audit-pair" => {
+            // (scenario fnv, history fnv) of run <index> after the runs a worker with <start>/<stride> made before it
+            let prop = args[2].clone();
+            let seed: u64 = args[3].parse().unwrap();
+            let start: u64 = args[4].parse().unwrap();
+            let stride: u64 = args[5].parse().unwrap();
+            let index: u64 = args[6].parse().unwrap();
+            let h = std::thread::Builder::new()
+                .stack_size(256 << 20)
+                .spawn(move || {
+                    exec::install_panic_hook();
+                    let scratch = format!("{}/{}-auditpair", supervisor::scratch_base(), std::process::id());
+                    let _ = std::fs::create_dir_all(&scratch);
+                    exec::set_root(&scratch);
+                    let r = worker::audit_pair_after_history(&prop, seed, start, stride, index);
+                    exec::clean_root(&scratch);
+                    let _ = std::fs::remove_dir(&scratch);
+                    r
+                })
+                .unwrap();
+            match h.join() {
+                Ok((s, hh)) => {
+                    println!("PAIR {:x} {:x}", s, hh);
+                    0
+                }
+                Err(_) => 3,
+            }
         }
         "corpus-obs" => {
             // one line per corpus main: verdict and the located errors (used to compare two trees)
